@@ -121,7 +121,7 @@ REENT_BIND_OBJS := $(patsubst $(GEN)/%.c,$(REENTB)/%.o,$(BIND_SRCS))
 $(REENTB)/bind_%.o: $(GEN)/bind_%.c bindings/bind.h $(REPO_HDRS) | dirs
 	@mkdir -p $(REENTB)
 	$(CC) -std=gnu99 -O1 -g -I$(REPO)/include -Ibindings -w -c $< -o $@
-REENT_WRAPFLAGS := $(foreach w,strtok rand srand localtime gmtime ctime asctime strerror setlocale malloc calloc realloc free getenv secure_getenv rand_r strtok_r random_r srandom_r initstate_r setstate_r drand48_r lrand48_r mrand48_r erand48_r nrand48_r jrand48_r srand48_r seed48_r lcong48_r mbrtowc mbrlen wcrtomb mbsrtowcs wcsrtombs localtime_r gmtime_r iconv iconv_close $(shell cat engines/reent/libc_denylist.txt),-Wl,--wrap=$(w))
+REENT_WRAPFLAGS := $(foreach w,strtok rand srand localtime gmtime ctime asctime strerror setlocale malloc calloc realloc free getenv secure_getenv rand_r strtok_r random_r srandom_r initstate_r setstate_r drand48_r lrand48_r mrand48_r erand48_r nrand48_r jrand48_r srand48_r seed48_r lcong48_r mbrtowc mbrlen wcrtomb mbsrtowcs wcsrtombs localtime_r gmtime_r iconv iconv_close strcpy strncpy strcat strncat stpcpy stpncpy sprintf snprintf vsprintf vsnprintf memccpy mempcpy bzero explicit_bzero wmemcpy wmemmove wmemset strxfrm qsort wcscpy wcsncpy bcopy swab strtol strtoul strtoll strtoull strtod strtof $(shell cat engines/reent/libc_denylist.txt),-Wl,--wrap=$(w))
 REENT_DRV_OBJS := $(REENTB)/drv_can.o $(REENTB)/drv_canbrief.o $(REENTB)/drv_vss.o
 $(REENTB)/drv_%.o: engines/reent/drv_%.c engines/reent/drivers.h $(REPO_HDRS) | dirs
 	@mkdir -p $(REENTB)
